@@ -548,4 +548,5 @@ func runC12(r *Run) {
 	for i := 0; i < r.n(20, 300); i++ {
 		c12Malformed(r)
 	}
+	runC12Client(r)
 }
